@@ -127,7 +127,7 @@ def draw_base(rng, i):
     which = i % 20
     if which < 11:
         alg = C.ALL_PART[which]
-        case = C.draw_partition_case(rng, alg=alg, classes=("small", "ties", "equal", "zeros", "perfect", "powers", "onehuge"), pres="list")
+        case = C.draw_partition_case(rng, alg=alg, classes=("small", "ties", "equal", "zeros", "perfect", "powers", "onehuge", "bignear"), pres="list")
         if alg == "rnp" and case["k"] > 3:
             case["k"] = 3
         if alg in ("ckk", "snp", "rnp", "dp", "ilp", "cg") and len(case["values"]) > 7:
